@@ -208,7 +208,8 @@ def program_case(draw):
             prog.append(["try_retry"])
     action = draw(st.sampled_from(["ack", "nack", "reject", "reschedule", "force_retry"]))
     job = {"id": "p0", "actor": "a_plain", "queue": "q0", "retries": 0, "store_result": True,
-           "attempts": [{"k": "eager", "action": action, "program": prog, "sleep": 0.0}, {"k": "ret", "v": None, "sleep": 0.0}]}
+           "attempts": [{"k": "eager", "action": action, "program": prog, "sleep": 0.0, "guard": draw(st.sampled_from([False, False, True]))},
+                        {"k": "ret", "v": None, "sleep": 0.0}]}
     if draw(st.integers(0, 2)) == 0:
         # in a `finally:` the actor tries a second terminal action on the handle it has just used
         job["attempts"][0]["then"] = draw(st.sampled_from(["ack", "nack", "reject", "reschedule", "retry", "force_retry"]))
